@@ -860,6 +860,9 @@ func (g *gen) genTx(bi int) {
 		if r.Chance(0.06) {
 			s.To = AcctPool
 		}
+		if r.Chance(0.04) {
+			s.To = []int{AcctLong, AcctShort}[r.Intn(2)]
+		}
 		if r.Chance(0.03) {
 			s.To = []int{AcctFee, AcctDAO, AcctPos}[r.Intn(3)]
 			if s.To == AcctPos && bi < 2 {
@@ -939,6 +942,9 @@ func (g *gen) genTx(bi int) {
 			s.Acct = g.pickAcct()
 		}
 		s.To = g.pickAcct()
+		if r.Chance(0.06) {
+			s.To = []int{AcctLong, AcctShort}[r.Intn(2)]
+		}
 		dao := g.balance(AcctDAO)
 		switch r.Pick([]int{3, 2, 2, 3}) {
 		case 0:
@@ -965,6 +971,9 @@ func (g *gen) genTx(bi int) {
 	case "award":
 		s.Acct = g.pickAcct()
 		s.To = g.pickAcct()
+		if r.Chance(0.05) {
+			s.To = []int{AcctLong, AcctShort}[r.Intn(2)]
+		}
 		s.Amount = []string{"1", "1000", "999999", "1000000", "123456789", "0"}[r.Intn(6)]
 	case "burn":
 		s.Acct = g.pickAcct()
